@@ -163,7 +163,10 @@ def run_case(case):
                                        f"{rec['open_after']} transports open after step {i}"))
             txs = net.transmissions[rec["tx0"]:rec["tx1"]]
             clean = (rec["outcome"] == "result" and len(txs) == 1 and not s["faults"] and not s["connects"])
-            if ka and prev is not None and between_clean and clean and prev["clean"]:
+            disturbed = prev is not None and any(
+                d["kind"] in ("fin", "rst", "icmp") and d["status"] == "delivered" and prev["t0"] <= d["t_run"] <= rec["t1"]
+                for d in net.deliveries)
+            if ka and prev is not None and between_clean and clean and prev["clean"] and not disturbed:
                 if prev["tid"] != txs[0]["tid"]:
                     violations.append(viol(f"C10:not-reused:{tr}",
                                            f"keep-alive on: consecutive clean successes used transports "
@@ -173,7 +176,7 @@ def run_case(case):
                     violations.append(viol(f"C10:not-recovered:{tr}",
                                            f"fault-free request after the history ended {rec['outcome']} "
                                            f"({len(txs)} transmissions)"))
-            prev = {"clean": clean, "tid": txs[0]["tid"] if txs else None}
+            prev = {"clean": clean, "tid": txs[0]["tid"] if txs else None, "t0": rec["t0"]}
             between_clean = True
         elif kind == "close":
             if info != 0:
